@@ -42,6 +42,13 @@ static inline size_t cm_next(const uint8_t *d, size_t n, size_t o)
 #define VALID_IF(d, n)      ((n) >= 38 && IF_VOFF(d) <= (n) && (n) - IF_VOFF(d) >= 2 && (size_t)BE16(d, IF_VOFF(d)) <= (n) - IF_VOFF(d) - 2)
 #define IF_STATUS_OK(d)     (B(d, 29) <= 2)
 
+/* ---- reassembly: a continuing segment is accepted iff the slot is open (first/intermediary), version and message type match,
+ *      the frame counter is the slot's counter + 1 modulo 2^16, the segment is intermediary or last and its declared bytes lie in the frame */
+#define SEG_BITS(b)         (B(b, 12) & 0x0C)
+#define SP_ACCEPT(st, ver, mt, seq, fver, fmt, fseq, b, n) \
+    (((st) == 4 || (st) == 8) && (ver) == (fver) && (mt) == (fmt) && (fseq) == (uint16_t)((seq) + 1) && \
+     (SEG_BITS(b) == 8 || SEG_BITS(b) == 12) && (size_t)BE16(b, 14) <= (n) - 16)
+
 /* a pointer/length view lies inside the payload buffer [d, d+n) */
 #define VIEW_IN(p, len, d, n) ((len) == 0 || (__CPROVER_same_object((p), (d)) && __CPROVER_POINTER_OFFSET(p) >= 0 && (size_t)__CPROVER_POINTER_OFFSET(p) + (len) <= (n)))
 
